@@ -381,6 +381,11 @@ def cursor_calls(f):
         last = ck.rsplit("::", 1)[-1]
         if last in METHODS and (re.search(r"Cursor|SkipListIterator", ck) or (t.get("trait") or "").endswith("sst::Cursor")):
             names.append((last, P.term_pt(f, b.idx)))
+        # a cursor method handed to a combinator as a function item: `self.block_cursor.as_ref().and_then(BlockCursor::key)`
+        for a in t["args"]:
+            fk = strip_generics((a.get("c") or {}).get("fn") or "") if a.get("k") == "const" else ""
+            if fk and fk.rsplit("::", 1)[-1] in METHODS and re.search(r"Cursor|SkipListIterator", fk):
+                names.append((fk.rsplit("::", 1)[-1], P.term_pt(f, b.idx)))
     return names
 
 
